@@ -5,14 +5,14 @@ root=$1; out=$2
 mkdir -p /tmp/mx
 one() {
   name=$1; sd=$2
-  wt=/tmp/mx/wt-$name; home=/tmp/mx/home-$name
+  wt=/tmp/mx/wt${MXTAG}-$name; home=/tmp/mx/home${MXTAG}-$name
   rm -rf $wt $home; mkdir -p $home/evidence; cp /verif/known_findings.json $home/
   git -C /repo worktree add -q --detach $wt HEAD || return
   patch=$sd/patch.diff; [ -f $sd/patch.rebased.diff ] && patch=$sd/patch.rebased.diff
   git -C $wt apply $patch 2>/dev/null || git -C $wt apply --3way $patch >/dev/null 2>&1
   line="$name"
   for id in C01 C02 C03 C04 C05 C06 C07 C08 C09 C10 C11 C12 C13 C14 C15 C16 C17 C18 C19 C20; do
-    AKVERIF_REPO=$wt AKVERIF_HOME=$home /verif/bin/akverif check $id quick > $home/$id.log 2>&1; rc=$?
+    AKVERIF_REPO=$wt AKVERIF_HOME=$home ${AKBIN:-/verif/bin/akverif} check $id quick > $home/$id.log 2>&1; rc=$?
     line="$line $id=$rc"
   done
   echo "$line"
